@@ -12,8 +12,7 @@ Lemma list_eqb_eq {A} (eqb : A -> A -> bool) :
   forall a b, list_eqb eqb a b = true <-> a = b.
 Proof.
   intros H. induction a as [|x a IH]; destruct b as [|y b]; cbn; try (split; congruence).
-  - split; reflexivity.
-  - rewrite andb_true_iff, H, IH. split; [intros [-> ->]; reflexivity|intros E; inversion E; auto].
+  rewrite andb_true_iff, H, IH. split; [intros [-> ->]; reflexivity|intros E; inversion E; auto].
 Qed.
 
 Lemma nl_eqb_eq a b : nl_eqb a b = true <-> a = b.
@@ -39,21 +38,31 @@ Proof. apply list_eqb_eq, trace_eqb_eq. Qed.
 Definition P_hijack (T : list event) : Prop :=
   forall pre r post, T = pre ++ HijackRet r :: post -> post = [SockClose].
 
+Lemma P_hijack_cons e T : is_hijackret e = false -> (P_hijack (e :: T) <-> P_hijack T).
+Proof.
+  unfold P_hijack. intros He. split.
+  - intros H pre r0 post E. apply (H (e :: pre) r0 post). cbn. rewrite E. reflexivity.
+  - intros H pre r0 post E. destruct pre as [|x pre].
+    + inversion E; subst. discriminate He.
+    + inversion E; subst. eapply H; reflexivity.
+Qed.
+
+Lemma cl_hijack_cons e T : is_hijackret e = false -> cl_hijack (e :: T) = cl_hijack T.
+Proof. destruct e; intros H; try discriminate H; reflexivity. Qed.
+
 Lemma cl_hijack_iff T : cl_hijack T = true <-> P_hijack T.
 Proof.
-  unfold P_hijack. induction T as [|e T IH].
+  induction T as [|e T IH].
   - split; [|reflexivity]. intros _ pre r post E. destruct pre; discriminate E.
-  - destruct e; cbn [cl_hijack];
-      try (rewrite IH; split;
-           [ intros H pre r0 post E; destruct pre as [|x pre]; [discriminate E|];
-             inversion E; subst; eapply H; reflexivity
-           | intros H pre r0 post E; apply (H (_ :: pre) r0 post); cbn; rewrite E; reflexivity ]).
-    rewrite trace_eqb_eq. split.
-    + intros -> pre r0 post E. destruct pre as [|x pre].
-      * inversion E. reflexivity.
-      * inversion E as [[Hx Hp]]. destruct pre as [|y pre]; [discriminate Hp|].
-        inversion Hp as [[Hy Hp']]. destruct pre; discriminate Hp'.
-    + intros H. apply (H [] r T). reflexivity.
+  - destruct (is_hijackret e) eqn:He.
+    + destruct e; try discriminate He. cbn [cl_hijack]. rewrite trace_eqb_eq.
+      unfold P_hijack. split.
+      * intros -> pre r0 post E. destruct pre as [|x pre].
+        -- inversion E. reflexivity.
+        -- inversion E as [[Hx Hp]]. destruct pre as [|y pre]; [discriminate Hp|].
+           inversion Hp as [[Hy Hp']]. destruct pre; discriminate Hp'.
+      * intros H. apply (H [] r T). reflexivity.
+    + rewrite (cl_hijack_cons e T He), (P_hijack_cons e T He). exact IH.
 Qed.
 
 (* C1 *)
@@ -148,7 +157,7 @@ Proof.
   rewrite !andb_true_iff, Nat.eqb_eq, resmod_wf_iff, ncar_iff. split.
   - intros [[H1 H2] [_ H3]]. right. do 5 eexists. split; [reflexivity|auto].
   - intros [H|[r0 [c0 [s0 [L0 [tl0 [H [H1 [H2 H3]]]]]]]]]; [discriminate H|].
-    inversion H; subst. repeat split; auto. discriminate.
+    inversion H; subst. split; [split; [exact H1|exact H2]|split; [discriminate|exact H3]].
 Qed.
 
 (* C5 / C4 / scope *)
@@ -308,7 +317,9 @@ Proof.
     + apply cl_resmod_ex_iff, H4, Hn.
     + apply cl_error_ex_iff, H7, Hn.
     + apply cl_skip_ex_iff, H8, Hn.
-  - intros [H1 H2 H3 H4 H5 H6 H7 H8]. repeat split; auto; intros i q Hn.
+  - intros [H1 H2 H3 H4 H5 H6 H7 H8].
+    refine (conj H1 (conj H2 (conj _ (conj _ (conj H5 (conj H6 (conj _ (conj _ eq_refl))))))));
+      intros i q Hn.
     + apply cl_reqmod_ex_iff. exact (H3 i q Hn).
     + apply cl_resmod_ex_iff, H4, Hn.
     + apply cl_error_ex_iff, H7, Hn.
@@ -327,11 +338,12 @@ Fixpoint conns_good (k b : nat) (conns : list (list req)) (Ts : list (list event
 Lemma conns_fail_iff : forall conns Ts k b,
   conns_fail k b conns Ts = None <-> conns_good k b conns Ts.
 Proof.
-  induction conns as [|reqs cs IH]; intros Ts k b; destruct Ts as [|T Ts]; cbn [conns_fail conns_good];
-    try (split; [discriminate|tauto]); [tauto|].
-  rewrite <- IH, <- conn_fail_iff.
-  destruct (conn_fail k b reqs T); split; try tauto; try discriminate.
-  intros [H _]. discriminate H.
+  induction conns as [|reqs cs IH]; intros Ts k b; destruct Ts as [|T Ts]; cbn [conns_fail conns_good].
+  - tauto.
+  - split; [discriminate|tauto].
+  - split; [discriminate|tauto].
+  - rewrite <- IH, <- conn_fail_iff.
+    destruct (conn_fail k b reqs T); split; try tauto; try discriminate.
 Qed.
 
 (* The property, as a statement about what was observed of one case:
